@@ -104,6 +104,7 @@ def c05(ctx):
     RA.rule_nadd_once(ctx, RA.add_kernels(F))
     RT.rule_wrapper_once(ctx, COUNTMIN, ("add", "query"))
     RA.rule_no_skip(ctx, RA.add_kernels(F))
+    RT.rule_observers(ctx, COUNTMIN)
     ctx.floor("no-skip", 6)
     ctx.floor("qmin", 15)
     ctx.floor("cons", 9)
@@ -202,6 +203,7 @@ def c13(ctx):
     RA.rule_sumcounters(ctx, [ks["merge"]])
     RT.rule_wrapper_once(ctx, hh)
     RT.rule_state_owner(ctx, hh)
+    RT.rule_observers(ctx, hh)
     ctx.floor("cachekey", 6)
     ctx.floor("mutators", 3)
     ctx.floor("filter", 4)
@@ -245,6 +247,7 @@ def c10(ctx):
     RT.rule_dispatch(ctx)
     RT.rule_post_load(ctx)
     RT.rule_reload_valid(ctx)
+    RT.rule_observers(ctx)
     RT.rule_state_owner(ctx)
     RA.rule_ceil(ctx)
     ctx.floor("persist-table", 30)
@@ -428,6 +431,7 @@ def c09(ctx):
     RT.rule_mergeguard(ctx, COUNTMIN)
     RT.rule_wrapper_once(ctx, COUNTMIN, ("merge",))
     RT.rule_state_owner(ctx, COUNTMIN)
+    RT.rule_observers(ctx, COUNTMIN)
     ctx.floor("other-ro", 3)
     ctx.floor("msum", 3)
     ctx.floor("cover", 6)
@@ -487,6 +491,7 @@ def c08(ctx):
     RA.rule_sumcounters(ctx, [k for k in mk if F.param_for(k, "n_added_records")], rule="nrecs")
     RA.rule_cover(ctx, [k for k in mk if k.parallel])
     RA.rule_other_ro(ctx, mk)
+    RT.rule_observers(ctx)
     ctx.floor("pills", 5)
     ctx.floor("once", 6)
     ctx.floor("nrecs", 12)
